@@ -33,7 +33,7 @@ def main():
     # translators whose output the property's theorem files depend on (everything else is skipped for this run: shorter critical
     # section when several seeded changes are tested at once; lib/stdflow.py refuses the run if this table is too small)
     HOOKS = {"C03": "10", "C08": "20,27-kern-byteops", "C09": "10,20,40-skeleton", "C10": "25,26,27-kern-masked-c32,28,29", "C11": "20,40-kern-ct,41",
-             "C12": "30", "C14": "29", "C16": "60", "C18": "20,21,22,23,24,25,50", "C20": "70"}
+             "C12": "30", "C14": "28-kern-mword2,29", "C16": "60", "C18": "20,21,22,23,24,25,50", "C20": "70"}
     results = {}
     try:
         for pid in ids:
